@@ -7,12 +7,13 @@ import SageoptModel.Drv.Compile
 import SageoptModel.Drv.Sage
 import SageoptModel.Drv.Vars
 import SageoptModel.Drv.Glue
+import SageoptModel.Drv.Wiring
 open Lean
 
 namespace Sageopt.Drv
 
 def allHandlers : List (String × Handler) :=
-  GF2.handlers ++ Solvers.handlers ++ Sig.handlers ++ SigL.handlers ++ SigCalc.handlers ++ Compile.handlers ++ Sage.handlers ++ Vars.handlers ++ Glue.handlers
+  GF2.handlers ++ Solvers.handlers ++ Sig.handlers ++ SigL.handlers ++ SigCalc.handlers ++ Compile.handlers ++ Sage.handlers ++ Vars.handlers ++ Glue.handlers ++ Wiring.handlers
 
 def dispatch (line : String) : String :=
   match Json.parse line with
